@@ -162,14 +162,20 @@ impl ConstructibleDb {
             let scope_id = component_db.scope_id(component_id);
             // Error handlers are stored as transformers, but they are still registered by the user:
             // problems with their inputs must be reported too.
-            let user_component_id = component_db.user_component_id(component_id).or_else(|| {
-                match component_db[component_id].source_id() {
+            let user_component_id = component_db
+                .user_component_id(component_id)
+                .or_else(|| match component_db[component_id].source_id() {
                     SourceId::UserComponentId(id) if component_db.is_error_handler(component_id) => {
                         Some(id)
                     }
                     _ => None,
-                }
-            });
+                })
+                // A constructor obtained by specializing a generic constructor:
+                // we point the user at the generic constructor they registered.
+                .or_else(|| {
+                    let generic_id = component_db.derived_from(&component_id)?;
+                    component_db.user_component_id(generic_id)
+                });
             let resolved_component = component_db.hydrated_component(component_id, computation_db);
             let input_types = {
                 let mut input_types: Vec<Option<Type>> = resolved_component
@@ -1015,6 +1021,13 @@ impl ConstructiblesInScope {
                 Some((bindings, templated_type.clone(), component_id))
             });
         if let Some((bindings, template, templated_component_id)) = matched {
+            if nesting_depth(type_) > MAX_NESTING_DEPTH {
+                // A generic constructor whose inputs are "bigger" than its output
+                // (e.g. `fn new<T>(w: &W<W<T>>) -> W<T>`) would have us instantiate
+                // ever-growing types, forever. We give up: the caller will report
+                // a missing constructor for this type.
+                return None;
+            }
             if type_.is_a_template() {
                 // The lookup type is itself a template — return the matched component
                 // directly without caching (the result is still templated).
@@ -1137,4 +1150,38 @@ impl std::fmt::Debug for ConstructiblesInScope {
         }
         Ok(())
     }
+}
+
+/// The maximum nesting depth of a type that we are willing to build by specializing
+/// a generic constructor. It matches the default value of `rustc`'s recursion limit.
+const MAX_NESTING_DEPTH: usize = 128;
+
+/// How deeply type constructors (generic arguments, references, tuples, etc.) are nested in `type_`.
+fn nesting_depth(type_: &Type) -> usize {
+    use crate::language::GenericArgument;
+    let inner = match type_ {
+        Type::Path(path) | Type::TypeAlias(path) => path
+            .generic_arguments
+            .iter()
+            .filter_map(|arg| match arg {
+                GenericArgument::TypeParameter(t) => Some(nesting_depth(t)),
+                GenericArgument::Lifetime(_) | GenericArgument::Const(_) => None,
+            })
+            .max()
+            .unwrap_or(0),
+        Type::Reference(r) => nesting_depth(&r.inner),
+        Type::Tuple(t) => t.elements.iter().map(nesting_depth).max().unwrap_or(0),
+        Type::Slice(s) => nesting_depth(&s.element_type),
+        Type::Array(a) => nesting_depth(&a.element_type),
+        Type::RawPointer(r) => nesting_depth(&r.inner),
+        Type::FunctionPointer(fp) => fp
+            .inputs
+            .iter()
+            .map(|input| nesting_depth(&input.type_))
+            .chain(fp.output.as_ref().map(|t| nesting_depth(t)))
+            .max()
+            .unwrap_or(0),
+        Type::ScalarPrimitive(_) | Type::Generic(_) => return 0,
+    };
+    inner + 1
 }
